@@ -14,7 +14,8 @@ THEOREMS = ['C17_interp_at_nodes', 'C17_interp_ref_on_segment', 'C17_interp_affi
             'C17_roundtrip_defined', 'C17_roundtrip_outside', 'C17_surface_pressure_on_segment',
             'C17_surface_pressure_is_intercept', 'C17_bilinear_constants', 'C17_bilinear_identity_same_grid',
             'C17_nearest_constants', 'C17_nearest_identity_same_grid', 'C17_dot_interp_eq_ref_R',
-            'C17_safe_extrap_window_R', 'C17_hyps_satisfiable']
+            'C17_safe_extrap_window_R', 'C17_hyps_satisfiable', 'C17_model_is_source',
+            'C17_gen_interp_complete']
 LEVEL = 'proof'
 LEVEL_TEXT = ('machine-checked theorems (Coq) for every ordered field (hence the reals), every strictly increasing '
               'node list of length >= 2, all data and ALL queries: value at nodes, chord on every closed cell, affine '
@@ -25,7 +26,13 @@ LEVEL_TEXT = ('machine-checked theorems (Coq) for every ordered field (hence the
 LEVEL_NOTE = ('theorems are about the Gallina model Model/Interp.v; jnp.interp is modelled by its documented semantics '
               '(count of nodes <= x, clipped bracket, chord, constant/NaN outside; the |dx| <= 4.9e-32 guard of jax is not '
               'modelled); grid latitudes/longitudes strictly increasing and BallTree self-neighbour indices are table '
-              'obligations; model tied to the code by differential correspondence in float64 vs exact rationals')
+              'obligations; model tied to the code by differential correspondence in float64 vs exact rationals and, for '
+              '_dot_interp, linear_interp_with_linear_extrap, _extrapolate_left/right/both, the padding loop of '
+              '_linear_interp_with_safe_extrap, get_surface_pressure and HybridCoordinates.get_sigma_boundaries/centers, by '
+              'C17_model_is_source: the model equals the transcription of the source AST regenerated on every run '
+              '(tools/translate/gen_interp.py, length-checked array DSL Model/ArrDSL.v; n >= 2 nodes, data without NaN; '
+              'searchsorted transcribed as a count; the final jnp.interp of the safe extrapolation, decorators and the '
+              'sigma/pressure wrappers are pinned textually or not transcribed)')
 
 _jax = None
 _cache = {}
